@@ -590,8 +590,11 @@ def run(ctx):
         "Coq 8.16.1 kernel (coqc); vm_compute for witnesses; no axioms (Print Assumptions: Closed under the global context)",
         "section hypothesis: printf(\"%.*e\") yields a digit string d1.d2..dp e+-XX that is the correctly rounded decimal (glibc); the "
         "theorems start from that digit string",
-        "hand-written models coq/Files/NumFmtModel.v, NpdScan.v, SaveModel.v, tied on every run to the compiled code "
-        "(harness/datafiles_num.c includes vnadata_save.c; field counts and acceptance through harness/datafiles_harness.c)",
+        "hand-written models coq/Files/NumFmtModel.v, NpdScan.v, SaveModel.v, SaveEmit.v (+ the loader models TsTok.v / TsParse.v of C08), "
+        "tied on every run to the compiled code (harness/datafiles_num.c includes vnadata_save.c; field counts, acceptance and the "
+        "token stream of the written file through harness/datafiles_harness.c)",
+        "section hypotheses of load_save_id_touchstone2: strtod of print_value's / the angle's text is rd (ptext_word, atext_word), "
+        "strtol reads %d back (itext_int), sign kept (rd_sign), rd = identity at MAX / >= 17 digits (num_rt)",
         "independent reader and conversion oracle lib/datafiles.py (Python, from the format descriptions / port relations)",
         "gcc, ASan/UBSan/LSan, allocation interposer harness/allocwrap.c",
     ]
@@ -600,7 +603,8 @@ def run(ctx):
     ctx.rule = ("one evaluation = one generated (object, file name / file type, format list, precisions) configuration saved and "
                 "re-loaded; distinct non-trivial = accepted configurations by (type, ports, file type, format list, z0 mode, precision)")
     ok, res = ctx.coq_obligations(["Files/NumFmtModel.v", "Files/NumFmtProofs.v", "Files/NpdScan.v", "Files/NpdScanProofs.v",
-                                   "Files/SaveModel.v", "Files/SaveProofs.v", "Properties_C06.v"])
+                                   "Files/SaveModel.v", "Files/SaveProofs.v", "Files/SaveEmit.v", "Files/SaveEmitTie.v",
+                                   "Files/SaveTsLemmas.v", "Files/SaveEmitProofs.v", "Files/SaveEmitExamples.v", "Properties_C06.v"])
     broken = []
     if not ok:
         broken.append("Coq development of C06 does not build: " + getattr(ctx, "_last_coq_log", "")[-400:])
